@@ -33,6 +33,8 @@ ASSUMPTIONS = [
     "iterations of an already started injected command during Pause are not judged here (known finding of C08)",
     "twin comparison skipped when the snippet contains a Block and the method has a Watch/Alarm inside a Block or changing inputs "
     "(the injected block legitimately delays the method's blocks)",
+    "twin comparison skipped (and counted) after an accepted merge that shows C01's known defect (method state emptied): the method "
+    "starts over there, with or without the injection",
 ]
 TIERS = {"quick": {"examples": 3200, "budget_s": 150, "max_top": 6, "max_depth": 3},
          "thorough": {"examples": 64000, "budget_s": 1500, "max_top": 9, "max_depth": 4}}
@@ -41,6 +43,13 @@ INJ_CMDS = ("Slow", "Set3")
 EDIT_CMDS = ("OvA", "Quick")
 EDIT_KINDS_W = ["append_end"] * 3 + ["append_scope"] * 3 + ["change"] * 2 + ["insert"] * 3 + ["delete"] * 2 + ["ws"] + ["change_started"] * 2
 
+# Known genuine defect of C01 (signature lost-state:all:merge-installs-stateless-program): an accepted merge discards the
+# run progress and the method starts over.  What the METHOD does after such a merge is not a basis for a comparison, so
+# with the switch on the twin comparison of the method is skipped for these cases (counted as excluded_known:...); the
+# clauses about the injected code itself (exactly once, finalized also across the edit) are still judged.
+EXCLUDE_KNOWN_C01_MERGE = True
+C01_SIG = "C01:lost-state:all:merge-installs-stateless-program"
+
 SIG_CMD_LOST = "injected-cmd-never-finalized:edit-while-running"
 SIG_LINES_LOST = "injected-lines-lost:edit-before-they-ran"
 SIG_BLOCK_NEVER_ENDS = "injected-lines-lost:behind-injected-block"
@@ -48,7 +57,7 @@ SIG_BLOCK_TOUCHES_METHOD = "method-changed:by-injected-block"
 
 
 def _cfg(tier_cfg) -> G.GenCfg:
-    return G.GenCfg(kinds={"mark": 5, "quick": 2, "ova": 4, "wait": 4, "block": 3, "watch": 2, "alarm": 1, "macro": 1,
+    return G.GenCfg(kinds={"mark": 4, "quick": 2, "ova": 7, "wait": 4, "block": 3, "watch": 2, "alarm": 1, "macro": 1,
                            "callmacro": 1, "blank": 1, "comment": 1},
                     max_depth=tier_cfg.get("max_depth", 3), max_top=tier_cfg.get("max_top", 6), max_children=3,
                     thresholds=True, base_first="s")
@@ -136,6 +145,17 @@ def _keys_after_first_block(snippet, keys):
     return []
 
 
+def _keys_from_first_block(snippet, keys):
+    """effect keys of the snippet lines inside and behind its first Block"""
+    n = 0
+    for x in snippet:
+        if x["k"] == "block":
+            return keys[n:]
+        if x["k"] in ("mark", "quick", "slow"):
+            n += 1
+    return []
+
+
 def run_case(case):
     lines0 = [list(x) for x in G.as_method_lines(G.render(case["tree"]))]
     traj, ops = case["traj"], case["ops"]
@@ -175,6 +195,10 @@ def run_case(case):
     if not A["edits"]:
         cl.append("no-edit")
 
+    S = E.Struct(A["final_lines"])
+    B = E.run_script(lines0, traj, ops, edit_cmds=EDIT_CMDS, inj_cmds=INJ_CMDS, drop_injects=True, n_ticks=A["n_ticks"])
+    # a method whose own Block never ends (twin without the injection) keeps an injected Block waiting for the block lock
+    open_blocks_B = [i for i in B["final_ms"]["started"] if E.split_line(dict(B["final_lines"]).get(i, ""))[1] == "Block"]
     starts, life = E.effects(A["events"])
     first_tick: dict = {}
     counts: dict = {}
@@ -185,6 +209,9 @@ def run_case(case):
     enough = A["quiet"] or A["n_ticks"] >= E.MAX_TICKS
     lost = [k for k in keys if counts.get(k, 0) == 0]
     keys_after_block = _keys_after_first_block(snippet, keys)
+    if lost and inj["has_block"] and open_blocks_B:
+        cl.append("lost-not-judged:method-block-never-ends")
+        lost = [k for k in lost if k not in _keys_from_first_block(snippet, keys)]
     if lost and enough:
         if t_edit is None and inj["has_block"] and all(k in keys_after_block for k in lost):
             viol(SIG_BLOCK_NEVER_ENDS, "injected at tick %d (state %s): %r; the lines behind the injected block never ran in %d ticks: %s"
@@ -233,12 +260,15 @@ def run_case(case):
             viol("inject:late", "injected at tick %d: last injected effect at tick %d after %d ticks that began Running (bound %d)"
                  % (t_inj, last, running_ticks, _snippet_cost(snippet)))
     # ---- the method is untouched: twin without the injection --------------------------------------------------------
-    S = E.Struct(A["final_lines"])
     reason = None
-    if inj["has_block"] and (S.has_interrupt_in_block() or any(p[0] > 0 for p in traj)):
+    merge_broken = any(r["accepted"] and (r["ms_before"]["started"] | r["ms_before"]["executed"] | r["ms_before"]["failed"])
+                       and not (r["ms_after"]["started"] | r["ms_after"]["executed"] | r["ms_after"]["failed"]) for r in acc)
+    if merge_broken and EXCLUDE_KNOWN_C01_MERGE:
+        reason = "known-C01-merge-discards-state"
+        info["excluded"] = 1
+    elif inj["has_block"] and (S.has_interrupt_in_block() or any(p[0] > 0 for p in traj)):
         reason = "injected-block-delays-method"
     if reason is None:
-        B = E.run_script(lines0, traj, ops, edit_cmds=EDIT_CMDS, inj_cmds=INJ_CMDS, drop_injects=True, n_ticks=A["n_ticks"])
         eA = [(r["op"], r["accepted"], r["info"].get("target")) for r in A["edits"]]
         eB = [(r["op"], r["accepted"], r["info"].get("target")) for r in B["edits"]]
         if eA != eB:
@@ -284,6 +314,8 @@ def check_case(case):
 def run_shard(col, cfg):
     def body(case):
         vs, info = run_case(case)
+        if info.get("excluded"):
+            col.count("excluded_known:%s" % C01_SIG, info["excluded"])
         kinds = G.count_kinds(case["tree"])
         classes = sorted(set(info["classes"]))
         if kinds.get("_depth", 0) >= 2:
@@ -294,4 +326,9 @@ def run_shard(col, cfg):
         lines = G.render(case["tree"])
         col.record(case, info["nontrivial"], classes=classes, violations=vs,
                    sample={"method": G.text_of(lines), "traj": case["traj"], "ops": case["ops"]})
-    hyp_run(cases(cfg), body, max(1, cfg["examples"] // col.nshards), shard_seed(col.seed, col.shard), col)
+    # batches with derived seeds: after the budget has run out Hypothesis would still generate (not run) every remaining
+    # example of a call, so a shard stops between batches instead
+    n, batch, b = max(1, cfg["examples"] // col.nshards), 200, 0
+    while b * batch < n and not col.expired():
+        hyp_run(cases(cfg), body, min(batch, n - b * batch), shard_seed(col.seed, col.shard) * 1000 + b, col)
+        b += 1
